@@ -7,8 +7,8 @@ TRUST = ("trusted: go/packages + go/ssa (x/tools v0.29.0) front end, the gosym S
          "z3 (z3-new 5.1.0 over a persistent pipe). ")
 
 claimed = {
- "C01": ("head-level framing obligation: every POST head built from ≤3 (quick) / ≤4 (thorough) framing fields (Content-Length with ≤2/≤3 arbitrary bytes, Transfer-Encoding variants, Connection: keep-alive) on HTTP/1.1 and 1.0 is either rejected or leaves ConnectionClose() set when RFC 9112 calls its framing ambiguous, and otherwise yields the RFC's body length",
-         "bounds: see text; composition with the serve loop's close-on-ConnectionClose is assumed, body/chunk decoding and pipelined streams through serveConnCounted are outside", "§0 C01"),
+ "C01": ("head-level framing obligation: every POST head built from ≤3 (quick) / ≤4 (thorough) framing fields (Content-Length with ≤2/≤3 arbitrary bytes, Transfer-Encoding variants, Connection: keep-alive) on HTTP/1.1 and 1.0 is either rejected or leaves ConnectionClose() set when RFC 9112 calls its framing ambiguous, and otherwise yields the RFC's body length; plus chunked bodies through the real serve loop: with a hole of ≤3/≤4 arbitrary bytes in the chunk-size line, after the chunk data or after the last-chunk size, whatever is dispatched is what an independent RFC 9112 §7.1 reader frames, the next request starts at that boundary, and a malformed chunked body is never followed by another request",
+         "bounds: see text; for the head-level harness the serve loop's close-on-ConnectionClose is assumed; the server option matrix is outside", "§0 C01"),
  "C02": ("the real ServeConn loop is interpreted on a scripted connection: for every combination of body framing (fixed 31 B / fixed 9031 B / chunked), Expect handling, StreamRequestBody, segmenting and handler read amount, the dispatched requests are /first then /second or the connection closes — request-shaped body bytes are never dispatched",
          "bounds: the finite input grammar listed in the evidence (no free symbolic bytes: every branch of the real loop is still decided on the symbolic executor); one known finding excluded (streamed long body left unread)", "§0 C02"),
  "C03": ("handler programs (5 statuses × 6 body-building calls incl. streams of known/unknown size and stream writers, ≤3/≤6 arbitrary body bytes, GET or HEAD) through the real ServeConn loop; the wire bytes split under an independent RFC 9112 reader into exactly the responses built: status, body (none for HEAD/204/304), and the next response starts where this one ends",
